@@ -4,6 +4,10 @@ import json, os
 ROOT = os.path.dirname(os.path.dirname(os.path.abspath(__file__)))
 ALL = ["C%02d" % i for i in range(1, 20)]
 CHECKS = {
+ "C11": dict(cat="exploration", ref="§4 C11",
+   technique="exhaustive enumeration of all 2^24 bus addresses for reads (4 identification passes on the real System) and for writes (mirror-layer sweeps with full-array comparison) against the real LoROM mapper",
+   text="Every bus address is read through the real System bus with a unique location id planted in every array cell, so the backing cell of each address is identified exactly and compared with what lorom.BusAddressToPak designates; every address both sides consider memory is then written (4 runs per mirror layer, ascending/descending, complementary values) and the ROM, SRAM and WRAM arrays are compared in full with the prediction after each run. The address domain is finite and fully covered.",
+   note="Generalisation over array contents rests on the bus never inspecting data values. Addresses only one side considers memory are outside the property."),
  "C13": dict(cat="model_checking", ref="§4 C13",
    technique="explicit-state BFS to a fixpoint over bus routing states, every transition a real Attach on a fresh real Bus (path replay), with per-state exhaustive read/write/EaDump obligations against an owner-map model",
    text="The routing state of a 4-segment window (owner per 16-byte segment, 3 memories, 256 states per window position, 5 positions incl. address 0, a bank edge and the top of the address space) is searched to a fixpoint; every aligned Attach is a transition executed on the real bus, every misaligned variant must be rejected without changing routing, and in every reached state all byte reads/writes and EaDump for every start<=end are compared with the model.",
